@@ -66,7 +66,7 @@ def pkg(fn, *args, clause="raised", **kwargs):
         raise
     except Exception as e:  # noqa
         if is_repo_exception(e):
-            raise Violation(clause, f"{exc_signature(e)}: {str(e)[:200]}")
+            raise Violation(f"{clause}:{exc_signature(e)}", f"{type(e).__name__}: {str(e)[:200]}")
         raise
 
 
@@ -161,7 +161,8 @@ class Ctx:
 
     def open_finding(self, kf_id):
         e = self._kf.get(kf_id)
-        return e is not None and e.get("status") == "open" and e.get("property") == self.prop_id
+        return (e is not None and e.get("status") == "open" and
+                (e.get("property") == self.prop_id or self.prop_id in e.get("also_seen_by", [])))
 
     def known(self, kf_id, what=None):
         """True (and counted) iff kf_id is an *open* entry of known_findings.json for this property."""
